@@ -138,7 +138,8 @@ def spec_strategy(draw, sub=False):
 def line_order_bases():
     bases = []
     ep = {"v6": False, "cmac": "020000000001", "smac": "020000000002", "sport": 443, "cport": 40001, "cip": "10.1.2.3", "sip": "192.168.7.9"}
-    for ver, suite, extra in ((0x0304, 0x1301, {}), (0x0304, 0x1303, {"tickets": 1}), (0x0303, 0xC02F, {}), (0x0301, 0x002F, {})):
+    for ver, suite, extra in ((0x0304, 0x1301, {}), (0x0304, 0x1303, {"tickets": 1}), (0x0304, 0x1302, {"early_labels": True, "hs_secrets": False}),
+                              (0x0303, 0xC02F, {}), (0x0301, 0x002F, {})):
         c = {"kind": "tls", "version": ver, "suite": suite, "seed": 77 + suite, "ep": ep, "history": [[0, 120, 0], [1, 300, 0], [0, 40, 0], [1, 33, 0]], "hs_secrets": True}
         c.update(extra)
         bases.append({"conns": [c], "order": [0], "tseed": 5})
